@@ -58,3 +58,18 @@ package sql
 //@ func NewIn [C13]
 //@   modifies nothing
 //@   ensures fresh(result) && result.leftSide == left && len(result.rightSide) == len(right) && (forall i int :: 0 <= i && i < len(right) ==> result.rightSide[i] == right[i])
+
+//@ func NewStringVal [C13]
+//@   modifies nothing
+//@   ensures typeis(result, "*StringVal") && unbox(result, "*StringVal").val == s
+//@ func Eq [C13]
+//@   modifies nothing
+//@   ensures fresh(result) && result.fn == "==" && len(result.clauses) == 2 && result.clauses[0] == left && result.clauses[1] == right
+//@ func NewWith
+//@   modifies nothing
+//@ func NewWithRef
+//@   modifies nothing
+//@ iface (ISelect).With(withs)
+//@   modifies nothing
+//@ iface (ISelect).Distinct(distinct)
+//@   modifies nothing
